@@ -73,7 +73,10 @@ pub fn generate(tape: &mut Tape, index: u64, tier: Tier) -> (&'static str, Sourc
             ("corpus-mutant", Sources::single(&join_tokens(&mutate_tokens(tape, toks))))
         }
         _ => {
-            let cfg = GenCfg { shadowing: true, invalid_cycles: true, loose_head_cycles: true, max_decls: 14, ..GenCfg::full() };
+            // Half of them also let cyclic declarations into the slots that want a plain URI / object /
+            // relation (an ill-formed cycle the checker must reject, not the back end crash on).
+            let plain = tape.chance(1, 2);
+            let cfg = GenCfg { shadowing: true, invalid_cycles: true, loose_head_cycles: true, loose_rec_as_plain: plain, max_decls: 14, ..GenCfg::full() };
             let (p, _) = Gen::new(tape, cfg).program();
             ("shadow-cycles", to_sources(&render_plain(&p)))
         }
